@@ -152,9 +152,11 @@ class UserFn(object):
                 if len(st) > 2 and st[2] == "ret":
                     return r
             elif k == "waitev":
-                self.world.events[st[1]].wait()
+                s.yield_point("uyield")
+                self.world.gate(st[1]).wait()
             elif k == "setev":
-                self.world.events[st[1]].set()
+                s.yield_point("uyield")
+                self.world.gate(st[1]).set()
             elif k == "yield":
                 s.yield_point("uyield")
             elif k == "nested":
@@ -314,6 +316,13 @@ class World(object):
         f = UserFn(name, behaviours, default, self)
         self.fns[name] = f
         return f
+
+    def gate(self, key):
+        """scenario-level gate (not a library primitive, not logged): lets user code block until a client releases it"""
+        e = self.events.get(key)
+        if e is None:
+            e = self.events[key] = core.QuietEvent()
+        return e
 
     def event(self, key):
         e = core.CEvent()
